@@ -220,6 +220,30 @@ class Check(object):
             lock.close()
         return (ret, out)
 
+    def coq_props_extra(self, rel, timeout=900):
+        ''' Re-check an additional theorem file (e.g. Props/TcpclTie.v) shared by several properties. '''
+        path = os.path.join(COQ, rel)
+        if not os.path.exists(path):
+            self.obligation('theorem:<%s missing>' % rel, False, 'missing')
+            return False
+        with open(path, 'r') as infile:
+            text = infile.read()
+        theorems = re.findall(r'^\s*(?:Theorem|Corollary)\s+([A-Za-z0-9_\']+)', text, flags=re.M)
+        vo_path = path[:-2] + '.vo'
+        if os.path.exists(vo_path):
+            os.unlink(vo_path)
+        (ret, out) = self.coq_make([rel + 'o'], timeout)
+        okay = (ret == 0)
+        if okay:
+            closed = out.count('Closed under the global context')
+            axioms = re.findall(r'Axioms:\n((?:.+\n?)+?)(?=\n\S|\Z)', out)
+            self.trusted_base.append('Print Assumptions over %s: %d theorem(s) "Closed under the global context"%s' % (
+                rel, closed, ''.join('; Axioms: ' + ' '.join(blk.split()) for blk in axioms)))
+        for name in theorems:
+            self.obligation('theorem:%s (%s)' % (name, rel), okay, '' if okay else self._first_error(out))
+        self.coverage.setdefault('theorems_extra', []).extend(theorems)
+        return okay
+
     def coq_props(self, extra_targets=(), timeout=1500):
         ''' Rebuild and re-check coq/Props/<id>.v from scratch; every
         ``Theorem`` in it is an obligation; collect Print Assumptions. '''
